@@ -85,8 +85,13 @@ fn request(k: usize, sender: usize) -> Request<Bytes> {
 type Fut = BoxFuture<'static, Result<Response<Bytes>, Infallible>>;
 
 /// What the authorizer of this unit decides for a sender (reference, from the statement)
-fn reference(auth: &Value, sender: usize) -> Result<(), (StatusCode, Vec<u8>, Option<String>)> {
+fn reference(auth: &Value, sender: usize, k: usize) -> Result<(), (StatusCode, Vec<u8>, Option<String>)> {
     match auth["kind"].as_str().unwrap() {
+        "two_lists" => {
+            // two independent allow-lists in one process; request k goes to list k % 2
+            let mask = auth[if k % 2 == 0 { "a" } else { "b" }].as_u64().unwrap();
+            reference(&json!({"kind":"allowed_peers","mask":mask}), sender, k)
+        }
         "allowed_peers" => {
             let mask = auth["mask"].as_u64().unwrap();
             if sender == 0 {
@@ -153,6 +158,19 @@ fn build(auth: &Value, shared: &Arc<Mutex<Shared>>) -> Vec<Box<dyn FnMut(Request
                 Box::new(move |r| Box::pin(c.call(r)) as Fut),
             ]
         }
+        "two_lists" => {
+            let list = |mask: u64| -> Vec<PeerId> { (0..3).filter(|i| mask & (1 << i) != 0).map(|i| ids()[i]).collect() };
+            let la = RequireAuthorizationLayer::new(AllowedPeers::new(list(auth["a"].as_u64().unwrap())));
+            let lb = RequireAuthorizationLayer::new(AllowedPeers::new(list(auth["b"].as_u64().unwrap())));
+            let (sa, sb) = (la.layer(inner.clone()), lb.layer(inner.clone()));
+            let (mut a, mut b, mut a2, mut b2) = (sa.clone(), sb.clone(), la.layer(inner.clone()), sb.clone());
+            vec![
+                Box::new(move |r| Box::pin(a.call(r)) as Fut) as Box<dyn FnMut(Request<Bytes>) -> Fut>,
+                Box::new(move |r| Box::pin(b.call(r)) as Fut),
+                Box::new(move |r| Box::pin(a2.call(r)) as Fut),
+                Box::new(move |r| Box::pin(b2.call(r)) as Fut),
+            ]
+        }
         "accept_all" => clones!(RequireAuthorizationLayer::new(|_r: &mut Request<Bytes>| -> Result<(), Response<Bytes>> { Ok(()) })),
         "mutate_then_accept" => clones!(RequireAuthorizationLayer::new(|r: &mut Request<Bytes>| -> Result<(), Response<Bytes>> {
             r.headers_mut().insert("stamp".into(), "authorized".into());
@@ -182,7 +200,8 @@ fn execute(auth: &Value, senders: &[usize], poll_order: &[usize], complete_order
     let flags: Vec<Arc<Flag>> = (0..n).map(|_| Arc::new(Flag(AtomicBool::new(true)))).collect();
     let mut results: Vec<Option<Response<Bytes>>> = (0..n).map(|_| None).collect();
     for (k, s) in senders.iter().enumerate() {
-        let f = svcs[k % 3](request(k, *s));
+        let nsvc = svcs.len();
+        let f = svcs[k % nsvc](request(k, *s));
         futs.push(Some(f));
         // invocation must be decided at call time or later, never for refused requests
     }
@@ -216,7 +235,7 @@ fn execute(auth: &Value, senders: &[usize], poll_order: &[usize], complete_order
     let s = shared.lock().unwrap();
     for (k, sender) in senders.iter().enumerate() {
         let invocations: Vec<_> = s.invoked.iter().filter(|i| i.0 == k).collect();
-        let want = reference(auth, *sender);
+        let want = reference(auth, *sender, k);
         let ctx = format!("[authorizer {auth}, senders {senders:?}, poll order {poll_order:?}, completion order {complete_order:?}] request {k} (sender {sender})");
         match want {
             Ok(()) => {
@@ -340,7 +359,7 @@ impl Check for C20 {
         CheckMeta {
             property: "C20",
             level: "model_checking",
-            rule: "authorizers: AllowedPeers over every subset of 3 identities, 14 pairs of nested AllowedPeers layers (outer list around inner list), accept-all, reject-with-custom-response, reject-by-sender, mutate-then-accept; request sequences: every sequence of 1-3 (quick) / 1-4 (thorough) senders from {no identity, 3 identities, a 4th} dispatched round-robin over 3 instances of the layered service (two clones + one built again from the layer); every poll order and every completion order; the inner service counts invocations when `call` is made; states = executions, transitions = requests; distinct = distinct accept/refuse shapes".into(),
+            rule: "authorizers: AllowedPeers over every subset of 3 identities, 14 pairs of nested AllowedPeers layers (outer list around inner list), 7 pairs of independent AllowedPeers layers side by side (requests alternate between the two), accept-all, reject-with-custom-response, reject-by-sender, mutate-then-accept; request sequences: every sequence of 1-3 (quick) / 1-4 (thorough) senders from {no identity, 3 identities, a 4th} dispatched round-robin over 3 instances of the layered service (two clones + one built again from the layer); every poll order and every completion order; the inner service counts invocations when `call` is made; states = executions, transitions = requests; distinct = distinct accept/refuse shapes".into(),
             assumptions: vec!["hand-driven executor; the authorizers are synchronous, as the trait requires".into(), "a supplementary FREE-RUNNING pass (4 OS threads issuing the first requests through clones of a fresh 20 000-entry allow-list, 160 | 1600 trials, exact oracle) samples races in state shared between clones; counted under free_running_trials, not part of the exhaustive claim".into()],
             exhaustive: true,
         }
@@ -350,6 +369,10 @@ impl Check for C20 {
         let mut u: Vec<Value> = (0..8).map(|m| json!({"kind":"allowed_peers","mask":m})).collect();
         for (outer, inner) in [(7u64, 0u64), (7, 1), (7, 2), (7, 4), (7, 3), (7, 5), (7, 6), (7, 7), (3, 1), (3, 2), (5, 4), (1, 2), (2, 1), (6, 3)] {
             u.push(json!({"kind":"nested_allowed_peers","outer":outer,"inner":inner}));
+        }
+        // two independent allow-lists side by side in one process (requests alternate between them)
+        for (a, b) in [(1u64, 2u64), (2, 1), (0, 7), (7, 0), (3, 5), (5, 6), (1, 1)] {
+            u.push(json!({"kind":"two_lists","a":a,"b":b}));
         }
         for part in 0..4 {
             u.push(json!({"kind":"free-running","part":part,"trials":_tier.pick(40, 400)}));
